@@ -131,22 +131,23 @@ def replay_path(cfg, path, g: graph.Graph):
   pol = sched.Scripted(script, strict=False)
   o = qreplay.run_config(cfg, pol, record_states=True)
   mismatch = None
+  limit = len(path)
   if pol.mismatch_at is not None:
     i, want, enabled = pol.mismatch_at
     mismatch = dict(step=i, kind='not-enabled', want=want, enabled=enabled, action=path[i][2])
-  else:
-    # states[0] is the state before the first step
-    for i, (src, dst, action, proc) in enumerate(path):
-      if i + 1 >= len(o.states):
-        mismatch = dict(step=i, kind='run-too-short', action=action, proc=proc)
-        break
-      want = spec_proj(g.state(dst))
-      got = norm_real(o.states[i + 1])
-      d = diff(want, got)
-      if d:
-        mismatch = dict(step=i, kind='state', action=action, proc=proc, fields=d,
-                        want={k: want[k] for k in d}, got={k: got.get(k) for k in d})
-        break
+    limit = i
+  # states[0] is the state before the first step; an earlier state disagreement takes precedence
+  for i, (src, dst, action, proc) in enumerate(path[:limit]):
+    if i + 1 >= len(o.states):
+      mismatch = dict(step=i, kind='run-too-short', action=action, proc=proc)
+      break
+    want = spec_proj(g.state(dst))
+    got = norm_real(o.states[i + 1])
+    d = diff(want, got)
+    if d:
+      mismatch = dict(step=i, kind='state', action=action, proc=proc, fields=d,
+                      want={k: want[k] for k in d}, got={k: got.get(k) for k in d})
+      break
   return o, mismatch
 
 
@@ -156,10 +157,10 @@ def outcome_allowed(o, mismatch, path, g: graph.Graph):
   Returns None if allowed, else (real outcome, number of allowed outcomes)."""
   if o.failure is not None or not o.states:
     return None
-  if mismatch['kind'] == 'state':
-    node = path[-1][1]          # the whole script was followed
-  else:
-    node = path[mismatch['step']][0]
+  # the last state in which the real run and the specification provably agreed (source of the first drifting step):
+  # whatever the real code did afterwards, also in a different step granularity, must end in an outcome the
+  # specification reaches from there
+  node = path[min(mismatch['step'], len(path) - 1)][0]
   real = norm_real(o.states[-1])
   key = lambda d: repr((sorted((c, [list(e) if isinstance(e, (list, tuple)) else e for e in v]) for c, v in d['received'].items()),
                         sorted((c, list(v)) for c, v in d['ended'].items())))
